@@ -264,6 +264,28 @@ fn check_cli_faulted(qml: &str, kind: &str) -> Result<(), Failure> {
         let changed: Vec<&String> = after.keys().filter(|k| before.get(*k) != after.get(*k)).chain(before.keys().filter(|k| !after.contains_key(*k))).collect();
         return Err(mk("outputs-touched", format!("planted {kind}: files created or modified although the command failed: {:?}", changed)));
     }
+    // the same faulty source next to a valid one, in both orders: the command still exits non-zero and
+    // the faulty source's outputs stay untouched (whether the valid source is translated is not specified)
+    for faulty_first in [true, false] {
+        let dir2 = scratch_dir("c04m");
+        let d2 = dir2.path();
+        std::fs::write(d2.join("Doc.qml"), qml).unwrap();
+        std::fs::write(d2.join("Other.qml"), "import qmluic.QtWidgets\nQWidget {\n    QLabel { text: \"fine\" }\n}\n").unwrap();
+        std::fs::write(d2.join("doc.ui"), b"OLD UI CONTENT\n").unwrap();
+        std::fs::write(d2.join("uisupport_doc.h"), b"// OLD HEADER CONTENT\n").unwrap();
+        let args: Vec<String> = if faulty_first { vec!["Doc.qml".into(), "Other.qml".into()] } else { vec!["Other.qml".into(), "Doc.qml".into()] };
+        let r2 = translate::run_cli(d2, &translate::foreign_types(), &args, 60);
+        if r2.timed_out {
+            continue;
+        }
+        let mk2 = |k: &str, why: String| Failure { key: format!("c04-cli-{k}"), what: why, detail: json!({"qml": qml, "fault": kind, "args": args, "status": r2.status, "stderr": r2.stderr.chars().take(1500).collect::<String>()}) };
+        if r2.status != Some(1) {
+            return Err(mk2("multi-source-status", format!("planted {kind} in Doc.qml, invoked as {:?}: exit status {:?}, expected 1", args, r2.status)));
+        }
+        if std::fs::read(d2.join("doc.ui")).ok().as_deref() != Some(b"OLD UI CONTENT\n".as_slice()) || std::fs::read(d2.join("uisupport_doc.h")).ok().as_deref() != Some(b"// OLD HEADER CONTENT\n".as_slice()) {
+            return Err(mk2("multi-source-outputs-touched", format!("planted {kind} in Doc.qml, invoked as {:?}: doc.ui or uisupport_doc.h was modified although Doc.qml has an error", args)));
+        }
+    }
     Ok(())
 }
 
